@@ -75,4 +75,18 @@ PROPS = {
             "rows are all excluded (fraction 0/0) - there the property text does not determine the outcome",
         ],
     },
+    "C13": {
+        "harness": [{"cmd": "c13", "n": {"quick": 1500, "thorough": 40000}}],
+        "rule": "random sequence sets and alignments (0-6 rows, 0-12 columns) in five regimes (all identical, all "
+                "distinct, few variants, N/X/gap variants, random; bags also with unequal lengths) x Deduplicate "
+                "(nAsGap on/off, three alphabets), Deduplicate twice, and Compress on alignments built from 1-3 "
+                "repeated column patterns plus noise; non-trivial = >= 2 rows and >= 2 columns; distinct = distinct "
+                "(op, options, input)",
+        "nontrivial": lambda m: len(m.get("seqs", [])) >= 2 and len(m["seqs"][0]) >= 2,
+        "assumptions": [
+            "go-radix Walk order is bytewise lexicographic (modelled by Base/Sort.v insertion sort); ASCII residues "
+            "(Compress ranges over the pattern string by runes)",
+            "names pairwise distinct, so AddSequence never renames (C01)",
+        ],
+    },
 }
